@@ -100,7 +100,10 @@ def find_loops(fn):
 def loop_header(n):
     if isinstance(n, ast.While):
         return 'while ' + ast.unparse(n.test)
-    return 'for ' + ast.unparse(n.target) + ' in ' + ast.unparse(n.iter)
+    t = ast.unparse(n.target)
+    if isinstance(n.target, ast.Tuple) and t.startswith('(') and t.endswith(')'):
+        t = t[1:-1]
+    return 'for ' + t + ' in ' + ast.unparse(n.iter)
 
 
 # ----------------------------------------------------------------------------------------------
@@ -153,7 +156,7 @@ def _const(node):
 
 CLAUSE_KINDS = {'requires', 'ensures', 'raises', 'raises_nothing', 'modifies', 'decreases', 'invariant',
                 'variant', 'unroll', 'inline', 'fresh_result', 'reads', 'ghost', 'assume_type', 'loop_modifies',
-                'pure', 'ensures_on_raise', 'check', 'use_lemma'}
+                'pure', 'ensures_on_raise', 'check', 'use_lemma', 'modifies_global'}
 
 
 def parse_contract_file(path):
@@ -228,6 +231,8 @@ def parse_contract_file(path):
                     if kind == 'loop_modifies':
                         extra['loop'] = _const(call.args[0])
                         extra['exprs'] = list(call.args[1:])
+                elif kind == 'modifies_global':
+                    extra['names'] = [_const(a) for a in call.args]
                 elif kind == 'ghost':
                     extra['name'] = _const(call.args[0])
                     extra['type'] = _const(call.args[1])
